@@ -115,7 +115,24 @@ func genesisV(g *orbtypes.GenesisState) cq.V {
 }
 
 // genesis documents
+// mostlyValid is set per document: identifiers and entries are then drawn from the valid pools (with
+// boundary values), so that documents accepted by validation are common.
+var mostlyValid bool
+
 func genCCID(r *rng.R) *core.CrossChainID {
+	if mostlyValid {
+		p := rng.Pick(r, []core.ProtocolID{1, 2, 3, 4})
+		var cp string
+		switch p {
+		case 1:
+			cp = rng.Pick(r, []string{"channel-0", "channel-1", "channel-18446744073709551615", "channel-01", "channel-7"})
+		case 2, 3:
+			cp = rng.Pick(r, []string{"0", "1", "2", "7", "4294967295", "10"})
+		default:
+			cp = rng.Pick(r, []string{"noble", "other", "12345678901234567890123456789012", "a:b", "x y"})
+		}
+		return &core.CrossChainID{ProtocolId: p, CounterpartyId: cp}
+	}
 	if r.Chance(3) {
 		return nil
 	}
@@ -133,6 +150,10 @@ func genCCID(r *rng.R) *core.CrossChainID {
 }
 
 func genGenesisDoc(r *rng.R) *orbtypes.GenesisState {
+	mostlyValid = r.Chance(60)
+	if mostlyValid {
+		return genValidishDoc(r)
+	}
 	g := &orbtypes.GenesisState{}
 	if !r.Chance(3) {
 		g.AdapterGenesis = &adaptertypes.GenesisState{Params: adaptertypes.Params{MaxPassthroughPayloadSize: rng.Pick(r, []uint32{0, 1, 16, 4294967295})}}
@@ -176,6 +197,46 @@ func genGenesisDoc(r *rng.R) *orbtypes.GenesisState {
 		}
 		g.ExecutorGenesis = e
 	}
+	return g
+}
+
+func genValidishDoc(r *rng.R) *orbtypes.GenesisState {
+	g := &orbtypes.GenesisState{}
+	g.AdapterGenesis = &adaptertypes.GenesisState{Params: adaptertypes.Params{MaxPassthroughPayloadSize: rng.Pick(r, []uint32{0, 1, 16, 4294967295})}}
+	d := &dispatchertypes.GenesisState{DispatchedAmounts: []dispatchertypes.DispatchedAmountEntry{}, DispatchedCounts: []dispatchertypes.DispatchCountEntry{}}
+	for i := r.Intn(5); i > 0; i-- {
+		in := rng.Pick(r, []*big.Int{big.NewInt(0), big.NewInt(1), big.NewInt(1000), bigAdd(pow2(256), -1), pow2(200)})
+		out := rng.Pick(r, []*big.Int{big.NewInt(0), big.NewInt(1), big.NewInt(999), bigAdd(pow2(256), -1)})
+		if in.Sign() == 0 && out.Sign() == 0 && r.Chance(80) {
+			in = big.NewInt(5)
+		}
+		e := dispatchertypes.DispatchedAmountEntry{SourceId: genCCID(r), DestinationId: genCCID(r), Denom: rng.Pick(r, []string{"uusdc", "ufoo", "a/b"}),
+			AmountDispatched: dispatchertypes.AmountDispatched{Incoming: math.NewIntFromBigInt(in), Outgoing: math.NewIntFromBigInt(out)}}
+		d.DispatchedAmounts = append(d.DispatchedAmounts, e)
+		if r.Chance(15) {
+			e.AmountDispatched.Incoming = math.NewInt(77)
+			d.DispatchedAmounts = append(d.DispatchedAmounts, e) // a repeated key: the last one wins
+		}
+	}
+	for i := r.Intn(4); i > 0; i-- {
+		d.DispatchedCounts = append(d.DispatchedCounts, dispatchertypes.DispatchCountEntry{SourceId: genCCID(r), DestinationId: genCCID(r),
+			Count: rng.Pick(r, []uint64{1, 7, 18446744073709551615, 1, 0})})
+	}
+	g.DispatcherGenesis = d
+	f := &forwardertypes.GenesisState{PausedProtocolIds: []core.ProtocolID{}, PausedCrossChainIds: []*core.CrossChainID{}}
+	perm := []core.ProtocolID{1, 2, 3, 4}
+	for i := r.Intn(4); i > 0; i-- {
+		f.PausedProtocolIds = append(f.PausedProtocolIds, perm[r.Intn(len(perm))])
+	}
+	for i := r.Intn(5); i > 0; i-- {
+		f.PausedCrossChainIds = append(f.PausedCrossChainIds, genCCID(r))
+	}
+	g.ForwarderGenesis = f
+	e := &executortypes.GenesisState{PausedActionIds: []core.ActionID{}}
+	for i := r.Intn(3); i > 0; i-- {
+		e.PausedActionIds = append(e.PausedActionIds, rng.Pick(r, []core.ActionID{1, 2}))
+	}
+	g.ExecutorGenesis = e
 	return g
 }
 
